@@ -17,7 +17,10 @@ def leaf(default=0, **kw):
 # tuple paths relative to the compartment that holds the process; the
 # number is the depth the process must at least be placed at
 TUPLES = [((), 0), (('s',), 0), (('s', 't'), 0), (('..', 'u'), 1),
-          (('..', '..', 'w'), 2), (('..', 'u', 'x'), 1)]
+          (('..', '..', 'w'), 2), (('..', 'u', 'x'), 1),
+          # two separate runs of '..'
+          (('s', '..', 's2'), 0), (('..', 'u', 'q', '..', 'u2'), 1),
+          (('s', 't', '..', '..', 'v', '..', 'w2'), 0)]
 
 
 def port_kinds(reduced=False):
